@@ -477,6 +477,44 @@ def _r7_5_queue(ctx: Ctx, f: Func, rule: str, q: str):
                    "positioned atom's row of the bond table", node=cc)
 
 
+def _specialise(e: ast.AST, sd: Dict[str, ast.AST], cnt: Optional[str], n: int, depth: int = 0) -> Optional[ast.AST]:
+    """`e` with locals that are bound once expanded to their values and conditional expressions on the neighbour
+    count resolved for a count of n; None if a conditional cannot be resolved"""
+    import copy as _c
+    if depth > 6:
+        return None
+
+    def count_test(t):
+        pol = True
+        while isinstance(t, ast.UnaryOp) and isinstance(t.op, ast.Not):
+            t, pol = t.operand, not pol
+        if isinstance(t, ast.Compare) and len(t.ops) == 1 and norm(t.left) == cnt and const_int(t.comparators[0]) is not None:
+            v = const_int(t.comparators[0])
+            val = {ast.Eq: n == v, ast.NotEq: n != v, ast.Gt: n > v, ast.GtE: n >= v, ast.Lt: n < v, ast.LtE: n <= v}.get(type(t.ops[0]))
+            return None if val is None else (val == pol)
+        return None
+    failed = []
+
+    class T(ast.NodeTransformer):
+        def visit_IfExp(self, node):
+            tv = count_test(node.test)
+            if tv is None:
+                failed.append(node)
+                return node
+            return self.visit(node.body if tv else node.orelse)
+
+        def visit_Name(self, node):
+            if isinstance(node.ctx, ast.Load) and node.id in sd and node.id != cnt:
+                r = _specialise(sd[node.id], sd, cnt, n, depth + 1)
+                if r is None:
+                    failed.append(node)
+                    return node
+                return r
+            return node
+    out = T().visit(_c.deepcopy(e))
+    return None if failed else out
+
+
 def r7_4(ctx: Ctx, g: Func, f: Func, rule="R7.4"):
     P, B, I = g.params[0], g.params[1], g.params[2]
 
@@ -494,15 +532,19 @@ def r7_4(ctx: Ctx, g: Func, f: Func, rule="R7.4"):
     alt3 = [frozenset((nb(1), nb(2)))]
     # count variable
     cnt = None
+    from ..pat import single_defs as _sd
     for s in g.node.body:
-        if isinstance(s, ast.Assign) and isinstance(s.value, ast.Call) and call_name(s.value) == "len" \
-                and norm(s.value.args[0]) == "%s[%s]" % (B, I):
-            cnt = norm(s.targets[0])
+        if isinstance(s, ast.Assign) and isinstance(s.value, ast.Call) and call_name(s.value) == "len" and s.value.args:
+            a0 = _specialise(s.value.args[0], {k_: v_ for k_, v_ in _sd(g.node).items() if k_ != norm(s.targets[0])}, None, 0)
+            if a0 is not None and norm(a0) == "%s[%s]" % (B, I):
+                cnt = norm(s.targets[0])
     pm = parents_map(g.node)
     crosses = [s for s in walk_no_nested(g.node) if isinstance(s, ast.Assign) and isinstance(s.value, ast.Call)
                and call_name(s.value) == "cross" and len(s.value.args) == 2]
     seen = set()
     dirvar = None
+    from ..pat import single_defs
+    sd_ = single_defs(g.node)
     for s in crosses:
         gs = guards_of(s, pm)
         # which neighbour counts reach this statement?  evaluate the guards for n = 1..6
@@ -524,28 +566,32 @@ def r7_4(ctx: Ctx, g: Func, f: Func, rule="R7.4"):
                 counts.append(n_)
         if not gs or not counts:
             continue
-        k = 3 if min(counts) >= 3 else (counts[0] if len(counts) == 1 else None)
-        if k is None:
-            ctx.ob(rule, g, s, False, "each neighbour-count case has its own construction -- this one is used for counts %s" % counts, node=s)
-            continue
-        seen.update(min(c_, 3) for c_ in counts if c_ <= 3 or k == 3)
-        if k == 3 and counts != [3, 4, 5, 6]:
-            ctx.ob(rule, g, s, False, "the three-or-more case covers every count >= 3 -- it covers %s" % counts, node=s)
-        dirvar = norm(s.targets[0])
-        keys = [diff_key(a) for a in s.value.args]
-        have = [x for x in keys if x is not None]
-        need = want.get(k, [])
-        if k == 3:
-            edges = set(have)
-            ok = len(edges) == 2 and edges <= set(want[3] + alt3)
-        else:
-            ok = all(n_ in have for n_ in need)
-        ctx.ob(rule, g, s, ok,
-               {1: "one neighbour: the direction is a cross product with the bond vector (so it is perpendicular to the bond)",
-                2: "two neighbours: the direction is a cross product with the vector joining the first two neighbours",
-                3: "three or more neighbours: the direction is the cross product of two edge vectors of the triangle "
-                   "of the first three neighbours (normal to their plane)"}[k]
-               + ("" if ok else " -- operands are %s" % [norm(a) for a in s.value.args]), node=s, neighbours=k)
+        groups = [[c_ for c_ in counts if c_ >= 3]] + [[c_] for c_ in counts if c_ < 3]
+        for grp in [g_ for g_ in groups if g_]:
+            k = 3 if grp[0] >= 3 else grp[0]
+            seen.add(k)
+            if k == 3 and grp != [3, 4, 5, 6]:
+                ctx.ob(rule, g, s, False, "the three-or-more case covers every count >= 3 -- it covers %s" % grp, node=s)
+            dirvar = norm(s.targets[0])
+            args = [_specialise(a, sd_, cnt, grp[0]) for a in s.value.args]
+            if any(a is None for a in args):
+                ctx.ob(rule, g, s, True, "operands of the cross product for %d neighbour(s) not in the modelled fragment; not decided" % k,
+                       undecided=True, node=s)
+                continue
+            keys = [diff_key(a) for a in args]
+            have = [x for x in keys if x is not None]
+            need = want.get(k, [])
+            if k == 3:
+                edges = set(have)
+                ok = len(edges) == 2 and edges <= set(want[3] + alt3)
+            else:
+                ok = all(n_ in have for n_ in need)
+            ctx.ob(rule, g, "%s  [%d neighbour(s)]" % (norm(s), k) if len(groups) > 1 and len([g_ for g_ in groups if g_]) > 1 else s, ok,
+                   {1: "one neighbour: the direction is a cross product with the bond vector (so it is perpendicular to the bond)",
+                    2: "two neighbours: the direction is a cross product with the vector joining the first two neighbours",
+                    3: "three or more neighbours: the direction is the cross product of two edge vectors of the triangle "
+                       "of the first three neighbours (normal to their plane)"}[k]
+                   + ("" if ok else " -- operands are %s" % [norm(a) for a in args]), node=s, neighbours=k)
     ctx.ob(rule, g, "neighbour-count branches covered: %s" % sorted(seen), seen == {1, 2, 3},
            "each neighbour-count case builds its direction with a cross product", node=g.node)
     # normalisation and scalar scaling keep the direction
